@@ -98,6 +98,9 @@ pub fn subject_main(job_path: &str) -> i32 {
         };
         mark(&marks, "O");
         let mut faulted = false;
+        let mut skipped = false;
+        let mut failed_at = 0usize;
+        let n_ops = job.ops.len();
         for (i, op) in job.ops.iter().enumerate() {
             let pre = live_dump(&d);
             let model_before = d.model.clone();
@@ -150,17 +153,24 @@ pub fn subject_main(job_path: &str) -> i32 {
                     rep.finished = true;
                     return;
                 }
-                // (3) repeating the call once the fault has cleared succeeds
-                let info2 = d.apply(op);
-                if let Some(e2) = info2.err {
-                    rep.checks.push(Check { name: "retry-succeeds".into(), ok: false, detail: format!("{} failed again: {e2}", op.short()), op: i });
-                    return;
+                if job.mode != "skip" {
+                    // (3) repeating the call once the fault has cleared succeeds
+                    let info2 = d.apply(op);
+                    if let Some(e2) = info2.err {
+                        rep.checks.push(Check { name: "retry-succeeds".into(), ok: false, detail: format!("{} failed again: {e2}", op.short()), op: i });
+                        return;
+                    }
+                    rep.checks.push(Check { name: "retry-succeeds".into(), ok: true, detail: String::new(), op: i });
                 }
-                rep.checks.push(Check { name: "retry-succeeds".into(), ok: true, detail: String::new(), op: i });
+                // mode "skip": the failed call is not repeated; the tree must remain usable for the
+                // rest of the history (expected states: the clean run of the history without op i,
+                // appended to the clean run's in `clean_live` / `clean_reopen`)
+                skipped = job.mode == "skip";
+                failed_at = i;
             }
             let live = live_dump(&d);
             if faulted || job.mode != "plain" {
-                if let Some(want) = job.clean_live.get(i) {
+                if let Some(want) = job.clean_live.get(if skipped { n_ops + i } else { i }) {
                     rep.checks.push(Check {
                         name: "state-equals-clean-run".into(),
                         ok: *want == live,
@@ -177,11 +187,25 @@ pub fn subject_main(job_path: &str) -> i32 {
             match crate::corrupt::workload(&job.cfg, &dir, &[]) {
                 Err(e) => rep.checks.push(Check { name: "final-reopen".into(), ok: false, detail: format!("reopen failed: {e}"), op: job.ops.len() }),
                 Ok(ans) => {
-                    let want = job.clean_reopen.last();
+                    let full = job.clean_reopen.get(n_ops);
+                    let (ok, want) = if skipped {
+                        // the state from before the failed call (history without it) - or from after it,
+                        // which can only still be on disk when nothing later persisted a version
+                        let later_memtable_only = job.ops[failed_at + 1..].iter().all(|o| {
+                            matches!(
+                                o,
+                                Op::Put { .. } | Op::Del { .. } | Op::WDel { .. } | Op::Batch { .. } | Op::MultiPut { .. } | Op::MultiDel { .. } | Op::PutIdx { .. } | Op::DelIdx { .. } | Op::PutF { .. } | Op::DelF { .. } | Op::Rotate
+                            )
+                        });
+                        let skip = job.clean_reopen.last();
+                        (Some(&ans) == skip || (later_memtable_only && Some(&ans) == full), skip)
+                    } else {
+                        (Some(&ans) == full, full)
+                    };
                     rep.checks.push(Check {
                         name: "final-reopen".into(),
-                        ok: Some(&ans) == want,
-                        detail: want.map(|w| diff_lines(w, &ans)).unwrap_or_default(),
+                        ok,
+                        detail: if ok { String::new() } else { want.map(|w| diff_lines(w, &ans)).unwrap_or_default() },
                         op: job.ops.len(),
                     });
                 }
@@ -429,6 +453,35 @@ pub fn fault_histories(tier: &str) -> Vec<FaultHistory> {
     v
 }
 
+/// Expected live / reopen dumps for continuation "skip" after a failure in op `k`: those of the clean
+/// run of the history without op `k` (the failed call changed nothing), re-indexed to the full history.
+pub fn skip_expectation(h: &FaultHistory, k: usize, root: &Path) -> Result<(Vec<Vec<String>>, Vec<Vec<String>>), String> {
+    let mut ops = h.ops.clone();
+    ops.remove(k);
+    let (l, r) = clean_run(&h.cfg, &ops, root)?;
+    let (full_live, full_reopen) = clean_run(&h.cfg, &h.ops, root)?;
+    let initial = {
+        let dir = root.join("clean");
+        crate::hx::fresh_dir(&dir);
+        let d = Driver::new(&dir, h.cfg.clone())?;
+        live_dump(&d)
+    };
+    let mut live = full_live;
+    for j in 0..h.ops.len() {
+        let v = if j < k {
+            l[j].clone()
+        } else if j == k {
+            if k == 0 { initial.clone() } else { l[k - 1].clone() }
+        } else {
+            l[j - 1].clone()
+        };
+        live.push(v);
+    }
+    let mut reopen = full_reopen;
+    reopen.push(r.last().cloned().unwrap_or_default());
+    Ok((live, reopen))
+}
+
 pub struct FaultOutcome {
     pub runs: u64,
     pub points: u64,
@@ -566,12 +619,35 @@ pub fn run_faults(tier: &str, threads: usize, max_wall_s: f64) -> FaultOutcome {
         let h = Arc::new(h);
         let live = Arc::new(live);
         let reopen = Arc::new(reopen);
+        let mut skip_exp: std::collections::BTreeMap<usize, (Arc<Vec<Vec<String>>>, Arc<Vec<Vec<String>>>)> = Default::default();
         for p in pts {
             // quick: one errno per call (the first = the most plausible one); thorough: all
             let errnos: &[&'static str] = if tier == "quick" { &faultable(&p.syscall)[..1] } else { faultable(&p.syscall) };
+            // continuations "reopen" and "skip" (go on without repeating the call): quick only for
+            // calls that change the file system (a failed read leaves nothing behind on disk)
+            let mutating = !matches!(p.syscall.as_str(), "read" | "pread64" | "getdents64" | "statx" | "newfstatat" | "fstat");
             for errno in errnos {
-                for mode in ["retry", "reopen"] {
-                    work.push(Work { h: h.clone(), live: live.clone(), reopen: reopen.clone(), p: p.clone(), errno, mode });
+                for mode in ["retry", "reopen", "skip"] {
+                    if mode != "retry" && tier == "quick" && !mutating {
+                        continue;
+                    }
+                    if mode == "skip" {
+                        if !skip_exp.contains_key(&p.op_index) {
+                            match skip_expectation(&h, p.op_index, &root) {
+                                Ok((l, r)) => {
+                                    skip_exp.insert(p.op_index, (Arc::new(l), Arc::new(r)));
+                                }
+                                Err(e) => {
+                                    machinery.push(format!("skip expectation of {} op {}: {e}", h.name, p.op_index));
+                                    continue;
+                                }
+                            }
+                        }
+                        let (l, r) = skip_exp[&p.op_index].clone();
+                        work.push(Work { h: h.clone(), live: l, reopen: r, p: p.clone(), errno, mode });
+                    } else {
+                        work.push(Work { h: h.clone(), live: live.clone(), reopen: reopen.clone(), p: p.clone(), errno, mode });
+                    }
                 }
             }
         }
@@ -686,7 +762,7 @@ pub fn replay_fault(rp: &FaultReplay) -> Result<Vec<String>, String> {
     let root = crate::hx::scratch_root().join("fault-replay");
     crate::hx::fresh_dir(&root);
     let h = FaultHistory { name: rp.history_name.clone(), cfg: rp.cfg.clone(), ops: rp.ops.clone() };
-    let (live, reopen) = clean_run(&h.cfg, &h.ops, &root)?;
+    let (live, reopen) = if rp.mode == "skip" { skip_expectation(&h, rp.op_index, &root)? } else { clean_run(&h.cfg, &h.ops, &root)? };
     let r = run_one_fault(&root, &h, &live, &reopen, &rp.syscall, rp.ordinal, &rp.errno, &rp.mode);
     let _ = std::fs::remove_dir_all(&root);
     match r {
